@@ -9,6 +9,8 @@ CONSTANTS
   HandlerSeqs <- A_HSeqs
   UpProgs <- A_UpProgs
   CRProg <- A_CR
+  Forms = {"fresh"}
+  Colls = {}
   QuitOn = TRUE
   QuitDeferred = TRUE
   DefCap = 1
